@@ -92,6 +92,14 @@ func (r *responseStorer) StoreResponse(
 		ResponseID:   responseID,
 	}
 
+	if refIndex < 0 {
+		// The caller found no matching reference (always the case for Vary: *):
+		// reuse the one that already points at this response id, if any, so
+		// that repeated requests do not make the index grow.
+		refIndex = slices.IndexFunc(refs, func(ref *ResponseRef) bool {
+			return ref != nil && ref.ResponseID == responseID
+		})
+	}
 	if refIndex < 0 || refIndex >= len(refs) {
 		refs = append(refs, refEntry) // New response reference
 	} else {
